@@ -3,7 +3,7 @@
 import ast
 
 from .. import assemblers as A
-from .. import geom, grideq, kernels as K, roles, rules, singular
+from .. import argbind, fx, geom, grideq, kernels as K, roles, rules, singular
 from ..alg import I, V
 from ..core import AnalysisError
 from ..src import unparse
@@ -19,7 +19,7 @@ LEVEL_TEXT = (
     "is added (one expression gates both), and that point clouds use the element-major layout of the assemblers."
 )
 LEVEL_NOTE = "Not decided: rounding-level equality of the assembled numbers; the electric-field clause holds only up to quadrature error by the statement itself."
-EXPLANATION = "rules REG-MODES, FACTORY-*, ASM-REGULAR, POT-SUM, SPEC-AGREE, GATE, GRID-IDENTITY, GEOM-AFFINE, LAUNCH-ROLES"
+EXPLANATION = "rules REG-MODES, FACTORY-*, ASM-REGULAR, POT-SUM, SPEC-AGREE, GATE, GRID-IDENTITY, GEOM-AFFINE, LAUNCH-ROLES, POINT-CLOUD, ASSEMBLER-PLUMBING, ARG-FORWARDED"
 ASSUMPTIONS = ["Numba arithmetic semantics"]  # (that grids compare equal iff they are the same grid is decided: rule GRID-IDENTITY)
 
 NK = K.NK
@@ -103,3 +103,5 @@ def run(ctx):
     grideq.grid_identity(ctx)
     geom.local2global_rule(ctx)
     geom.point_cloud(ctx)
+    fx.assembler_plumbing(ctx)  # 'all quadrature orders': the order given with the operator is the order the assembler integrates with
+    argbind.forwarded_optionals(ctx)
